@@ -509,7 +509,8 @@ def oracle(p):
             spacing = [list(r_) for r_ in spv]
         letters = "xyz"[:D]
         keys = [a for a in letters] + [a + b for a in letters for b in letters]
-        which = rng.sample(keys, rng.randint(1, len(keys))) if i % 3 else None
+        keys3 = [a + b + c_ for a in letters for b in letters for c_ in letters]
+        which = (rng.sample(keys, rng.randint(1, len(keys))) + rng.sample(keys3, 2)) if i % 3 else None
         desc = {"D": D, "shape": list(shape_t), "stride": ss, "spacing": spacing, "which": which}
         bump(f"sderiv-bspline:D{D}")
         try:
